@@ -307,17 +307,23 @@ EXPLANATION = (
     "K.pairs.strict are proved for every operator's real parse() and every emitted template, for all inputs, states and "
     "child behaviours; Pair.tokens, Pairs.tokens, the nested generator of Pairs.flatten and Pairs.flatten are proved "
     "against their functional Specs (tokens = [Start] ++ children's tokens ++ [End]; flatten = pre-order) with "
-    "recursion against their own contracts. Balancedness, monotone positions, dump()/dumps() agreement, names/tags "
-    "are derived facts checked on real trees (bounded stand-in)."
+    "recursion against their own contracts. Pair.dump / Pair.dumps / Pairs.dump / Pairs.dumps are proved against Spec "
+    "functions of one abstract tree (dumps = pest's format_pair of exactly what dump returns), the other accessors "
+    "(text, __str__, as_str, inner, stream, __len__, __getitem__, first, find_first_tagged, Stream.next / peek / backup) "
+    "against functional contracts; every accessor is proved pure (frame.pure) and total (total.noraise.*). "
+    "templates.stubs_representative: parse() / generate() test the class or tag of a child only at the audited sites. "
+    "Balancedness, monotone positions, names/tags are derived facts checked on real trees (bounded stand-in)."
 )
 TRUSTED = [
     *groups.COMMON_TRUSTED,
     "wf lemma instances W1-W5 (concatenation, monotonicity, singleton) follow from the definition of wf by induction on the length of the pair list (trusted)",
     "generators modelled as the list of yielded values (no interleaving with the consumer)",
+    "json.dumps(str), str.join(list of str), str * int: total uninterpreted functions into str; a tag is None or non-empty (C10 lexical layer); dict displays as records",
+    "list comprehensions over children modelled as the pointwise map of the function's own contract (length and first element unfolded)",
     "derived facts (balanced Start/End stream, non-decreasing positions) follow from the functional Spec of tokens() and wf by induction on the tree (meta-argument; checked on real trees by the stand-in)",
 ]
 ASSUMPTIONS = groups.COMMON_ASSUMPTIONS
-BOUNDED = ["derived tree facts + dump()/dumps(): replay/diff4 families and the bundled grammars' corpora, four modes, start positions 0..2 (stand-in)"]
+BOUNDED = ["derived tree facts, accessor purity (abandoned traversals, early-stopping searches first), dumps() == independent rendering of dump(): 11 replay/diff4 families and the bundled grammars' corpora, four modes, start positions 0..2 (stand-in)"]
 
 
 def specs(tier):
